@@ -48,8 +48,22 @@ TextOK(r) == /\ r.opens = 1 /\ r.closes = 1 /\ r.first = "(" /\ r.last = ")"
 ConvOK(r) == LET a == DecAll(r.from, r.a)  b == DecAll(r.T, r.out)
              IN  Len(a) = Len(b) /\ \A i \in 1..Len(a) : D!DEq(Val(r.from, a[i]), Val(r.T, b[i]))
 
+\* interop traits: a foreign type is admitted as an N-vector by NAME when it has exactly the data members x, y(, z(, w)) of the
+\* element type and is exactly N elements big; by SUBSCRIPT when one (two for matrices) level of subscripting yields the element
+\* type and it is exactly N elements big.  r.members / r.mt / r.slots / r.sub describe the foreign type, r.T and r.want the query.
+HasAll(ms, need) == \A k \in 1..Len(need) : \E j \in 1..Len(ms) : ms[j] = need[k]
+TraitOK(r) ==
+    LET sized == r.slots = r.want
+        typed == r.mt = r.T
+        chars(str) == CASE str = "xy" -> <<"x", "y">> [] str = "xyz" -> <<"x", "y", "z">> [] str = "xyzw" -> <<"x", "y", "z", "w">> [] OTHER -> <<>>
+        need == CASE r.fam = "has_xy" -> <<"x", "y">> [] r.fam = "has_xyz" -> <<"x", "y", "z">> [] r.fam = "has_xyzw" -> <<"x", "y", "z", "w">> [] OTHER -> <<>>
+        expect == CASE r.fam \in {"has_xy", "has_xyz", "has_xyzw"} -> HasAll(chars(r.members), need) /\ typed /\ sized
+                    [] r.fam = "has_subscript" -> r.sub >= 1 /\ typed /\ sized
+                    [] r.fam = "has_double_subscript" -> r.sub = 2 /\ typed /\ sized
+    IN  (r.got = 1) = expect
+
 Judge(r) == CASE r.e = "agg" -> AggOK(r) [] r.e = "aggeq" -> EqOK(r) [] r.e = "aggtol" -> TolOK(r)
-              [] r.e = "agglayout" -> LayoutOK(r) [] r.e = "aggtext" -> TextOK(r) [] r.e = "aggconv" -> ConvOK(r) [] OTHER -> FALSE
+              [] r.e = "agglayout" -> LayoutOK(r) [] r.e = "aggtext" -> TextOK(r) [] r.e = "aggconv" -> ConvOK(r) [] r.e = "aggtrait" -> TraitOK(r) [] OTHER -> FALSE
 What(r) == IF r.e = "agg" THEN <<r.e, r.fam, r.T, r.op, r.sp>> ELSE <<r.e, r.fam, r.T>>
 Init == l = 1 /\ cur = <<>> /\ key = <<>>
 Next == \/ /\ l <= TraceLen
